@@ -56,6 +56,12 @@ func runC01(e *core.Env) {
 		seed ^= seed << 17
 		data[i] = byte(seed)
 	}
+	// one blob in six is an image config (JSON), so that it can also be fetched through the config conversion
+	asConfig := n >= 8 && e.Choose("gen", 6, "asconfig") == 5
+	if asConfig {
+		data = []byte(fmt.Sprintf(`{"architecture":"amd64","os":"linux","config":{"Labels":{"k":"%x"}},"rootfs":{"type":"layers","diff_ids":[]}}`, data[:n/4+1]))
+		n = len(data)
+	}
 	alg := "sha256"
 	if e.Choose("gen", 4, "alg") == 3 {
 		alg = "sha512"
@@ -71,6 +77,7 @@ func runC01(e *core.Env) {
 	faultFree := e.Choose("gen", 5, "faultfree") == 4
 	var plan []string
 	var rdr io.ReadSeekCloser
+	var refUsed ref.Ref
 	var rc *regclient.RegClient
 	ctx := context.Background()
 	var openErr error
@@ -128,6 +135,7 @@ func runC01(e *core.Env) {
 		if err != nil {
 			panic(err)
 		}
+		refUsed = r
 		b, err := rc.BlobGet(ctx, r, desc)
 		openErr = err
 		if err == nil {
@@ -138,6 +146,17 @@ func runC01(e *core.Env) {
 		w := newWorld(e)
 		up := w.AddReg("up.test")
 		up.PutBlobAlg("r", alg, data)
+		// one case in eight: the registry does not hold the blob, the descriptor carries an external URL, and the
+		// bytes come from that host (a foreign layer); the same corruptions apply to what it serves
+		viaURL := e.Choose("gen", 8, "viaurl") == 7
+		if viaURL {
+			delete(up.Repo("r").Blobs, dig)
+			ext := w.AddReg("ext.test")
+			ext.PutBlobAlg("layers", alg, data)
+			desc.URLs = []string{"https://ext.test/v2/layers/blobs/" + dig}
+			sample["served_by"] = "external URL of the descriptor"
+			e.Probe("served-by-external-url")
+		}
 		// an optional mirror that holds different bytes under the digest
 		if !faultFree && e.Choose("gen", 5, "badmirror") == 4 {
 			m := w.AddReg("m1.test")
@@ -172,7 +191,7 @@ func runC01(e *core.Env) {
 		}
 		cur := map[int]string{}
 		isBlobGet := func(x *simnet.Exchange) bool {
-			return x.Method == "GET" && strings.Contains(x.Path, "/blobs/") && x.Host == "up.test"
+			return x.Method == "GET" && strings.Contains(x.Path, "/blobs/") && (x.Host == "up.test" && !viaURL || x.Host == "ext.test")
 		}
 		w.Net.Hook = func(x *simnet.Exchange) *simnet.Fault {
 			if !isBlobGet(x) {
@@ -276,6 +295,7 @@ func runC01(e *core.Env) {
 		if err != nil {
 			panic(err)
 		}
+		refUsed = r
 		b, err := rc.BlobGet(ctx, r, desc)
 		openErr = err
 		if err == nil {
@@ -284,8 +304,11 @@ func runC01(e *core.Env) {
 	}
 	sample["plan"] = plan
 	// reading: tape-drawn buffer sizes, optional rewind
-	mode := e.Choose("gen", 4, "readmode") // 0,1: loop; 2: RawBody/ReadAll; 3: loop with rewind
-	sample["read_mode"] = []string{"loop", "loop", "readall", "loop+rewind"}[mode]
+	mode := e.Choose("gen", 4, "readmode") // 0,1: loop; 2: RawBody/ReadAll; 3: loop with rewind; 4: through the image-config conversion
+	if asConfig && e.Choose("gen", 2, "viaconfig") == 1 {
+		mode = 4
+	}
+	sample["read_mode"] = []string{"loop", "loop", "readall", "loop+rewind", "BlobGetOCIConfig"}[mode]
 	e.SetCase(fmt.Sprintf("%v|%d|%s|%v|%v|%d|%x", sample["scheme"], n, alg, sizeKnown, plan, mode, seed), true, sample)
 	simrt.Event("BlobGet len=%d alg=%s sizeKnown=%v plan=%v -> openErr=%v", n, alg, sizeKnown, plan, openErr)
 	if openErr != nil {
@@ -324,6 +347,17 @@ func runC01(e *core.Env) {
 		endErr = errors.New("harness: read loop did not end")
 	}
 	switch mode {
+	case 4:
+		// the conversion reads the stream to its end on the caller's behalf: what it hands back on success must be the blob
+		_ = rdr.Close()
+		cb, err := rc.BlobGetOCIConfig(ctx, refUsed, desc)
+		if err != nil {
+			endErr = err
+		} else {
+			delivered, _ = cb.RawBody()
+			endErr = io.EOF
+			e.Probe("read-through-config-conversion")
+		}
 	case 2:
 		b, err := io.ReadAll(rdr)
 		delivered, endErr = b, err
